@@ -39,7 +39,7 @@ Inductive block :=
 | BEntity (pre : option (str * str)) (ws1 name ws2 : str) (q : N) (v ws3 : str).
     (* [pre = Some (body, iw)]: the attached comment <!--body--> and the whitespace [iw]
        between it and the declaration (at most one line break, may be empty); then
-       <!ENTITY ws1 name ws2 q v q ws3 >  with the quote character [q] (" or ') *)
+       <!ENTITY ws1 name ws2 q v q ws3 >  with the quote character [q] (double or single) *)
 
 Definition decl_text (ws1 name ws2 : str) (q : N) (v ws3 : str) : str :=
   ENT ++ ws1 ++ name ++ ws2 ++ q :: v ++ q :: ws3 ++ [62%N].
@@ -169,7 +169,7 @@ Definition adjacent_ok_bom (mark : bool) (bs : list block) : Prop :=
 Definition A (l : list nat) : str := map N.of_nat l.
 (*  <!ENTITY a "b">  *)
 Definition ex_e1 : block := BEntity None (A [32]) (A [97]) (A [32]) 34%N (A [98]) [].
-(*  <!-- c - d -->\n<!ENTITY  foo.bar\n'x"<y>&%z;'\t>  *)
+(*  <!-- c - d -->\n<!ENTITY  foo.bar\n'xD<y>&%z;'\t>   where D is a double quote  *)
 Definition ex_e2 : block :=
   BEntity (Some (A [32; 99; 32; 45; 32; 100; 32], A [10])) (A [32; 32]) (A [102; 111; 111; 46; 98; 97; 114])
           (A [10]) 39%N (A [120; 34; 60; 121; 62; 38; 37; 122; 59]) (A [9]).
@@ -200,7 +200,7 @@ Proof. split; [repeat constructor|]. split; vm_compute; reflexivity. Qed.
 (* separation is needed: a comment, ONE line break, a bare declaration is an attached comment *)
 Example ex_dtd_separation_needed : let bs := [ex_c; ex_b; ex_e1] in
   Forall legal_block bs /\ adjacent_okb bs = false /\ walk_dtd (file_text bs) <> Ok (entries_of bs) /\
-  adjacent_ok [ex_c; ex_b; ex_b; ex_e1] /\ adjacent_ok [ex_c; ex_b; ex_c; ex_e1] /\
+  adjacent_ok [ex_c; ex_b; ex_b; ex_e1] /\ adjacent_ok [ex_c; ex_b; ex_c; ex_e3] /\
   adjacent_okb [ex_c; ex_e1] = false.
 Proof.
   split; [repeat constructor|]. split; [vm_compute; reflexivity|]. split; [vm_compute; discriminate|].
@@ -232,4 +232,104 @@ Example ex_dtd_bom : let bs := [ex_e2; ex_b; ex_c] in
 Proof.
   split; [repeat constructor|]. split; [vm_compute; reflexivity|]. split; [vm_compute; reflexivity|].
   split; vm_compute; reflexivity.
+Qed.
+
+(* ---- Parser.getNext for the DTD format, case by case ------------------------------------------ *)
+Definition the_fmt : fmt := fmt_dtd rx_dtd_comment rx_dtd_ws rx_dtd_key g_dtd_key_key g_dtd_key_val.
+Definition gnb : str -> nat -> entry := get_next_base the_fmt.
+
+Definition dtd_entity (k : mres) (c w : option span) : entry :=
+  mkentry KEntity (mspan k) (group g_dtd_key_key k)
+    (match group g_dtd_key_val k with Some (a, b) => Some (a + 1, b - 1) | None => None end) c w.
+
+Definition license_at (s : str) (off : nat) (x : mres) : bool :=
+  (off <? 2) && contains s_License (comment_val CDtd (slice s (m_start x) (m_end x))).
+
+Lemma gnb_white : forall s off w,
+  omatch rx_dtd_comment s off = None -> omatch rx_dtd_ws s off = Some w ->
+  gnb s off = mk_white (mspan w).
+Proof.
+  intros s off w Hc Hw. unfold gnb, get_next_base, the_fmt, fmt_dtd.
+  cbn [f_comment f_ws f_key f_cstyle f_license_below f_create f_junk]. rewrite Hc, Hw. reflexivity.
+Qed.
+
+Lemma gnb_bare : forall s off k,
+  omatch rx_dtd_comment s off = None -> omatch rx_dtd_ws s off = None ->
+  omatch rx_dtd_key s off = Some k ->
+  gnb s off = dtd_entity k None None.
+Proof.
+  intros s off k Hc Hw Hk. unfold gnb, get_next_base, the_fmt, fmt_dtd.
+  cbn [f_comment f_ws f_key f_cstyle f_license_below f_create f_junk]. rewrite Hc, Hw, Hk. reflexivity.
+Qed.
+
+Lemma gnb_license : forall s off x,
+  omatch rx_dtd_comment s off = Some x -> license_at s off x = true ->
+  gnb s off = mk_comment (mspan x).
+Proof.
+  intros s off x Hc Hl. unfold gnb, get_next_base, the_fmt, fmt_dtd.
+  cbn [f_comment f_ws f_key f_cstyle f_license_below f_create f_junk]. rewrite Hc.
+  unfold license_at in Hl. rewrite Hl. reflexivity.
+Qed.
+
+Lemma gnb_comment_alone : forall s off x w,
+  omatch rx_dtd_comment s off = Some x -> license_at s off x = false ->
+  omatch rx_dtd_ws s (m_end x) = Some w ->
+  (1 <? count_char 10%N (slice s (m_start w) (m_end w))) = true ->
+  gnb s off = mk_comment (mspan x).
+Proof.
+  intros s off x w Hc Hl Hw Hn. unfold gnb, get_next_base, the_fmt, fmt_dtd.
+  cbn [f_comment f_ws f_key f_cstyle f_license_below f_create f_junk]. rewrite Hc.
+  unfold license_at in Hl. rewrite Hl, Hw, Hn. reflexivity.
+Qed.
+
+(* a comment, then whitespace with at most one line break, then the key expression *)
+Lemma gnb_comment_ws_key : forall s off x w,
+  omatch rx_dtd_comment s off = Some x -> license_at s off x = false ->
+  omatch rx_dtd_ws s (m_end x) = Some w ->
+  (1 <? count_char 10%N (slice s (m_start w) (m_end w))) = false ->
+  gnb s off = match omatch rx_dtd_key s (m_end w) with
+              | Some k => dtd_entity k (Some (mspan x)) (Some (mspan w))
+              | None => mk_comment (mspan x)
+              end.
+Proof.
+  intros s off x w Hc Hl Hw Hn. unfold gnb, get_next_base, the_fmt, fmt_dtd.
+  cbn [f_comment f_ws f_key f_cstyle f_license_below f_create f_junk]. rewrite Hc.
+  unfold license_at in Hl. rewrite Hl, Hw, Hn.
+  destruct (omatch rx_dtd_key s (m_end w)); reflexivity.
+Qed.
+
+(* a comment directly in front of what the key expression is tried on *)
+Lemma gnb_comment_key : forall s off x,
+  omatch rx_dtd_comment s off = Some x -> license_at s off x = false ->
+  omatch rx_dtd_ws s (m_end x) = None ->
+  gnb s off = match omatch rx_dtd_key s (m_end x) with
+              | Some k => dtd_entity k (Some (mspan x)) None
+              | None => mk_comment (mspan x)
+              end.
+Proof.
+  intros s off x Hc Hl Hw. unfold gnb, get_next_base, the_fmt, fmt_dtd.
+  cbn [f_comment f_ws f_key f_cstyle f_license_below f_create f_junk]. rewrite Hc.
+  unfold license_at in Hl. rewrite Hl, Hw.
+  destruct (omatch rx_dtd_key s (m_end x)); reflexivity.
+Qed.
+
+(* DTDParser.getNext: the mark is skipped at offset 0 only; the parsed-entity expression is
+   tried only when Parser.getNext reports Junk *)
+Lemma gn_dtd_base : forall (a rest : str),
+  (a = [] -> head_is (N.eqb bom) rest = false) ->
+  e_kind (gnb (a ++ rest) (length a)) <> KJunk ->
+  gn_dtd (a ++ rest) (length a) = gnb (a ++ rest) (length a).
+Proof.
+  intros a rest Hb Hk. unfold gn_dtd, get_next_dtd.
+  assert (E : (Nat.eqb (length a) 0 &&
+               match omatch rx_dtd_header (a ++ rest) 0 with Some _ => true | None => false end) = false).
+  { destruct a as [|c a']; [|reflexivity]. rewrite header_at0. cbn [app]. rewrite Hb by reflexivity.
+    reflexivity. }
+  rewrite E. fold the_fmt. fold gnb. destruct (e_kind (gnb (a ++ rest) (length a))); try reflexivity.
+  contradiction.
+Qed.
+
+Lemma gn_dtd_mark : forall s, head_is (N.eqb bom) s = true -> gn_dtd s 0 = gn_dtd s 1.
+Proof.
+  intros s H. unfold gn_dtd, get_next_dtd. rewrite header_at0, H. reflexivity.
 Qed.
